@@ -6,6 +6,7 @@ from contracts.spec_common import _xa
 from contracts.C01 import _wit_spectra
 from contracts.C03 import _wit_clean
 import pyvc.models.xr   # noqa
+import pyvc
 import pyvc.models.npshape   # noqa  (np.prod, rank-2 unravel_index, ndarray.reshape merging leading axes)
 from pyvc.values import Ref, Obj
 
@@ -729,7 +730,134 @@ flatten_c = Contract(S + "WaveSpectrum.flatten", instances=[(k, _p_flatten(k)) f
                              [(f"grid_member_i_j_is_member_i_times_n2_plus_j.{v}", _flatten_pairing(v, "ravel"), {"1d", "2d"}) for v in (NAME_E, "depth", "time", LAT)],
                      native=_native_grid, witness=[_wit_grid(k, n1, n2) for k in KINDS for n1, n2 in ((3, 2), (2, 3), (1, 4))])
 
-NEW = [isel_int, isel_slice] + getitem_cs + reduce_cs + [flatten_c]
+
+# ---- concatenate N spectra along a new dimension, select the i-th: returns the i-th input
+from pyvc.values import CArr as _CArr
+import z3 as _z3
+OPS = "wavespectra/operations.py::"
+
+
+def _scalar_spectrum(mk, kind, tag, coords_spec):
+    """a single spectrum (no leading dimension) with its own density / moments / depth / position and its own time (a scalar
+    coordinate, as left by isel(time=k)), on the common spectral grid"""
+    st = mk.st
+    sd = SDIMS[kind]
+    ss = tuple(coords_spec[d].shape[0] for d in sd)
+    tcell = _CArr((), {(): _z3.Real(f"{tag}_time")})
+
+    def xa(dims, arr, nan, coords):
+        r = pyvc.models.xr.mk_xa(st, dims, arr, nan, coords)
+        st.deref(r).fields["scoords"] = {P: tcell}
+        return r
+    vs = {}
+    for v in SPECV[kind]:
+        vs[v] = xa(sd, st.deref(mk.array(f"{tag}_{v}", ss)), st.deref(mk.array(f"{tag}_{v}_nan", ss, "bool")), coords_spec)
+    vs["depth"] = xa((), _CArr((), {(): _z3.Real(f"{tag}_depth")}), _CArr((), {(): _z3.Bool(f"{tag}_depth_nan")}, "bool"), {})
+    for v in ("latitude", "longitude"):
+        vs[v] = xa((), _CArr((), {(): _z3.Real(f"{tag}_{v}")}), None, {})
+    ds = st.alloc(Obj("Dataset", {"vars": vs, "coords": {**coords_spec, P: tcell}}), "dataset")
+    return mk.instance(S + ("FrequencySpectrum" if kind == "1d" else "FrequencyDirectionSpectrum"), {"dataset": ds})
+
+
+def _p_concat(kind, N):
+    def p(mk):
+        cs = {NAME_F: mk.st.deref(mk.array("f", (mk.size("nf"),)))}
+        if kind == "2d":
+            cs[NAME_D] = mk.st.deref(mk.array("theta", (mk.size("nd"),)))
+        args = {f"s{k}": _scalar_spectrum(mk, kind, f"s{k}", cs) for k in range(N)}
+        return _record(mk, tuple(args))(args)
+    return p
+
+
+def _concat_call(interp, st, fv, args):
+    """concatenate_spectra([s0, .., s_{N-1}], dim='time') followed by isel(time=k) for every k -> (cat, sel_0, ..)"""
+    names = sorted(args)
+    cat = interp.call_function(st, fv, [], {"spectra": st.alloc([args[n] for n in names], "list"), "dim": P})
+    return (cat,) + tuple(interp.call(st, interp.getattr(st, cat, "isel"), [], {P: k}) for k in range(len(names)))
+
+
+def _concat_native(kw, inst):
+    from ocean_science_utilities.wavespectra.operations import concatenate_spectra
+    names = sorted(kw)
+    cat = concatenate_spectra([kw[n] for n in names], dim="time")
+    return (cat,) + tuple(cat.isel(time=k) for k in range(len(names)))
+
+
+def _concat_frame(a, r):
+    names = sorted(k for k in a.__dict__ if k.startswith("s") and k[1:].isdigit())
+    if hasattr(a, "_snap"):
+        st = a._snap
+        refs = list(a._result_raw)
+        ok = all(operand_unchanged(a, n) for n in names)
+        for x in refs:
+            ok = ok and all(x.id != a._raw[n].id and _ds_ref(st, x).id != a._ghost["pre_ds_" + n] for n in names)
+        return bool(ok)
+    ok = True
+    for n in names:
+        ok = ok and _values_equal_native(a.old[n] if isinstance(a.old, dict) else getattr(a.old, n), getattr(a, n))
+        ok = ok and all(x is not getattr(a, n) and x.dataset is not getattr(a, n).dataset for x in r)
+    return bool(ok)
+
+
+def _concat_select(k, which):
+    """selecting element k of the concatenation returns input k: variance density, moments, depth, position, time"""
+    def clause(a, r):
+        names = sorted(n for n in a.__dict__ if n.startswith("s") and n[1:].isdigit())
+        src = getattr(a, names[k])
+        sel = r[1 + k]
+        if not hasattr(sel, "_o"):
+            if which == "layout":
+                return bool(type(sel) is type(src) and type(r[0]) is type(src) and r[0].dataset[NAME_E].dims[0] == "time" and r[0].dataset[NAME_E].shape[0] == len(names)
+                            and _native_eq(sel.dataset[NAME_F].values, src.dataset[NAME_F].values))
+            if which not in src.dataset and which != "time":
+                return True
+            return _native_eq(sel.dataset[which].values, src.dataset[which].values)
+        sp = Spec(src)
+        kind = "2d" if sp.two_d else "1d"
+        vs, sv = sel.dataset.vars, src.dataset.vars
+        if which == "layout":
+            cat = r[0].dataset.vars
+            cs = [sel._o.cls is src._o.cls, r[0]._o.cls is src._o.cls, set(vs) == _names(kind), set(cat) == _names(kind),
+                  sel.dataset.coords[NAME_F]._a is src.dataset.coords[NAME_F]._a]
+            cs += [cat[v].dims == (P,) + SDIMS[kind] and cat[v].arr.shape[0] == len(names) and vs[v].dims == SDIMS[kind] for v in SPECV[kind]]
+            cs += [cat[v].dims == (P,) and cat[v].arr.shape[0] == len(names) and vs[v].dims == () for v in SCALV]
+            return And(*cs)
+        if which == "time":
+            return eq(_time_of(sel, ()), src.dataset.coords["time"][()])
+        if which in SCALV:
+            return _cell(vs[which], (), sv[which], ())
+        if which not in SPECV[kind]:
+            return True
+        return _over_spectral(sp, lambda ix: _cell(vs[which], ix, sv[which], ix))
+    return _structural(clause)
+
+
+def _wit_concat(kind, N):
+    def w():
+        s1, s2 = _wit_spectra()
+        s = s1 if kind == "1d" else s2
+        n = len(s.dataset["time"])
+        return (f"{kind},N={N}", {f"s{k}": s.isel(time=(k + 1) % n) for k in range(N)})
+    return w
+
+
+def _concat_contract():
+    insts = [(f"{k},N={N}", _p_concat(k, N)) for k in KINDS for N in (2, 3)]
+    ens = [("every_input_unchanged_results_new", _concat_frame)]
+    for k in range(3):
+        only = {lab for lab, _ in insts if k < int(lab.split("N=")[1])}
+        ens.append((f"select_{k}.same_kind_new_leading_dimension_of_length_N", _concat_select(k, "layout"), only))
+        for v in SPECV["1d"] + SCALV + ("time",):
+            o2 = {lab for lab in only if v in SPECV[lab.split(",")[0]] or v in SCALV or v == "time"}
+            ens.append((f"select_{k}.returns_input_{k}.{v}", _concat_select(k, v), o2))
+    return Contract(OPS + "concatenate_spectra", label="concatenate_then_select", instances=insts, ensures=ens, call=_concat_call,
+                    requires=[("sizes", lambda a: And(Spec(a.s0).nf >= 0, (Spec(a.s0).nd >= 0) if Spec(a.s0).two_d else True))],
+                    options={"native_call": _concat_native}, witness=[_wit_concat(k, N) for k in KINDS for N in (2, 3)])
+
+
+concat_c = _concat_contract()
+
+NEW = [isel_int, isel_slice] + getitem_cs + reduce_cs + [flatten_c, concat_c]
 
 def _bounded_restructure(tier, seed):
     """concatenate/select, flatten pairing, netCDF round trip and random operation sequences with bitwise operand snapshots
